@@ -357,6 +357,18 @@ def gen_cases(rng, tier):
     n_pl, n_st = (140, 500) if tier == "quick" else (2500, 8000)
     cases = ["pl 1 c - -", "pl 0 c - 1,2,3", "pl 1 c map:1 1,2,3"]
     cases += [gen_pl(rng, tier) for _ in range(n_pl)]
+    for _ in range(40 if tier == "quick" else 600):
+        # the same graph value run twice (stage state must not survive a materialisation): inputs whose first
+        # element equals the last one make leaked Deduplicate / Scan state visible
+        f = gen_pl(rng, tier).split()
+        f[0] = "pl2"
+        if f[4] != "-" and rng.random() < 0.6:
+            vs = f[4].split(",")
+            vs.append(vs[0])
+            f[4] = ",".join(vs[-200:]) if len(vs) > 200 else ",".join(vs)
+            if rng.random() < 0.5 and "dd" not in f[3] and f[3].count(";") < 5:
+                f[3] = "dd" if f[3] == "-" else "dd;" + f[3]
+        cases.append(" ".join(f))
     for _ in range(3 if tier == "quick" else 40):
         # slow consumer: the sink blocks until upstream is quiescent (bounded wait of 1.5 s per case)
         f = gen_pl(rng, tier).split()
@@ -426,6 +438,16 @@ def f2_signature(case, impl):
 
 
 def compare(case, impl, model):
+    if case.startswith("pl2 "):
+        pi, pm = impl.split(" ## "), model.split(" ## ")
+        if len(pi) != 2 or len(pm) != 2:
+            return f"impl={impl!r} model={model!r}"
+        c1 = "pl " + case[4:]
+        for a, b in zip(pi, pm):
+            d = compare(c1, a, b)
+            if d:
+                return d
+        return None
     if case.startswith("pl"):
         _, _, stages, vals = split_case(case)
         _, errs, _ = sem(stages, vals)
@@ -452,7 +474,7 @@ def is_trivial(case, impl):
 
 def tag(case, impl):
     f = case.split()
-    if f[0] == "pl":
+    if f[0] in ("pl", "pl2"):
         st = (impl or "").split(" ")[0].split("=")[0]
         return f"pl:depth{0 if f[3] == '-' else len(f[3].split(';'))}:{st}"
     return "st:" + f[1].split(":")[0]
@@ -466,6 +488,12 @@ def oracle(case, impl, judge):
     if judge is not None:
         return None if judge.startswith("ok") else judge
     if not case.startswith("pl"):
+        return None
+    if case.startswith("pl2 "):
+        for part in impl.split(" ## "):
+            r = oracle("pl " + case[4:], part, None)
+            if r:
+                return r
         return None
     # python mirror of Spec.C45.judgeRun
     _, _, stages, vals = split_case(case)
@@ -501,7 +529,7 @@ def classify(case, impl, why):
 
 def shrink(case):
     f = case.split()
-    if f[0] != "pl":
+    if f[0] not in ("pl", "pl2"):
         hd, _, evs = case.partition("|")
         ev = evs.split()
         for i in range(len(ev)):
@@ -509,7 +537,7 @@ def shrink(case):
         return
     stages = [] if f[3] == "-" else f[3].split(";")
     vals = [] if f[4] == "-" else f[4].split(",")
-    mk = lambda st, vs: f"pl {f[1]} {f[2]} {';'.join(st) or '-'} {','.join(vs) or '-'}"
+    mk = lambda st, vs: f"{f[0]} {f[1]} {f[2]} {';'.join(st) or '-'} {','.join(vs) or '-'}"
     if len(vals) > 1:
         yield mk(stages, vals[:len(vals) // 2])
         yield mk(stages, vals[len(vals) // 2:])
